@@ -1,4 +1,5 @@
 import Driver.Sent
+import Driver.Bin
 /-! `vdriver`: reads one case per line on stdin, writes one response line per case. -/
 open V V.Drv
 
@@ -6,6 +7,11 @@ def handle (line : String) : String :=
   match line.trimAscii.toString.splitOn " " with
   | "S" :: ops :: _ => runSent ops
   | "H" :: cfg :: preds :: ops :: _ => runH cfg preds ops
+  | "B" :: r => runBin ("B" :: r)
+  | "RS" :: r => runBin ("RS" :: r)
+  | "RX" :: r => runBin ("RX" :: r)
+  | "RF" :: r => runBin ("RF" :: r)
+  | "WF" :: r => runBin ("WF" :: r)
   | _ => "bad-case"
 
 partial def loop (h : IO.FS.Stream) (out : IO.FS.Stream) : IO Unit := do
